@@ -188,6 +188,8 @@ Refresh1(s, w, a, all) ==
                  IF k \notin cand THEN o
                  ELSE IF OID(s, w, k) \in u
                  THEN [o EXCEPT !.h  = HeightOfOut(s, OID(s, w, k)),
+                                \* a coinbase matures relative to the block it is in (fix: C04 HeightsFromChain)
+                                !.lk = IF o.cb THEN HeightOfOut(s, OID(s, w, k)) + Maturity ELSE @,
                                 !.st = IF @ \in {"Unconfirmed", "Reverted"} THEN "Unspent" ELSE @,
                                 !.tx = IF k \in newCb THEN base + rank(k) - 1 ELSE @]
                  ELSE IF ~o.cb /\ o.tx # NoTx /\ o.tx \in rev
